@@ -476,6 +476,15 @@ fn gen_pair(rng: &mut Rng, complex: bool, da: usize, db: usize, plain: bool) -> 
             b.push(rand_scalar(rng, complex, -1.0, 1.0) + C64::new(0.25, 0.0));
         }
         shape_b = format!("{}+continuation-of-a-by-{}-terms", shape_a, extra);
+        if extra == 0 && (a[0].re.to_bits() >> 5) % 2 == 0 {
+            // ... or equal in length and different by less than the zero tolerance in every coefficient (two
+            // measurements of one polynomial): close is not equal, p * q is not p * p
+            let t = tol_a.unwrap_or(DEFAULT_TOL);
+            for (k, z) in b.iter_mut().enumerate() {
+                *z += C64::new(t * (0.05 + 0.9 * ((k * 7 + 3) % 10) as f64 / 10.0) * if k % 2 == 0 { 1.0 } else { -1.0 }, 0.0);
+            }
+            shape_b = format!("{}+perturbed-below-the-tolerance", shape_a);
+        }
         if rng.bool() {
             std::mem::swap(&mut a, &mut b);
             std::mem::swap(&mut shape_a, &mut shape_b);
